@@ -28,6 +28,7 @@ import (
 	"encoding/hex"
 	"fmt"
 	"math/big"
+	"sort"
 	"strings"
 	"testing"
 
@@ -193,6 +194,81 @@ func (c *c26Case) deposit(it kit.V, i int) *Deposit {
 	return d
 }
 
+// c26Bridge is the package's local Bridge chain with real event filtering (block range and
+// wallet, as an Ethereum node applies it) and on-chain proposal validation that accepts
+// everything while recording what it was given: the point of the proposal scenarios is what
+// the Go code resolves the proposal to, not what the contract would reject afterwards.
+type c26Bridge struct {
+	*localChain
+	events []*DepositRevealedEvent
+	extra  []struct {
+		*Deposit
+		FundingTx *bitcoin.Transaction
+	}
+}
+
+func (b *c26Bridge) PastDepositRevealedEvents(f *DepositRevealedEventFilter) ([]*DepositRevealedEvent, error) {
+	out := []*DepositRevealedEvent{}
+	for _, e := range b.events {
+		if f != nil {
+			if e.BlockNumber < f.StartBlock || (f.EndBlock != nil && e.BlockNumber > *f.EndBlock) {
+				continue
+			}
+			if len(f.WalletPublicKeyHash) > 0 {
+				found := false
+				for _, w := range f.WalletPublicKeyHash {
+					found = found || w == e.WalletPublicKeyHash
+				}
+				if !found {
+					continue
+				}
+			}
+		}
+		cp := *e
+		out = append(out, &cp)
+	}
+	return out, nil
+}
+
+func (b *c26Bridge) ValidateDepositSweepProposal(w [20]byte, p *DepositSweepProposal, extra []struct {
+	*Deposit
+	FundingTx *bitcoin.Transaction
+}) error {
+	b.extra = extra
+	return nil
+}
+
+func (b *c26Bridge) ValidateRedemptionProposal(w [20]byte, p *RedemptionProposal) error { return nil }
+
+func (b *c26Bridge) ValidateMovedFundsSweepProposal(w [20]byte, p *MovedFundsSweepProposal) error {
+	return nil
+}
+
+// c26Btc adds per-transaction confirmation counts to the local Bitcoin chain.
+type c26Btc struct {
+	*localBitcoinChain
+	conf map[bitcoin.Hash]uint
+}
+
+func (b *c26Btc) GetTransactionConfirmations(h bitcoin.Hash) (uint, error) {
+	if n, ok := b.conf[h]; ok {
+		return n, nil
+	}
+	return 0, fmt.Errorf("transaction not found")
+}
+
+// c26DepositData returns the deposit revealed at output idx of funding transaction tx.
+func (c *c26Case) c26DepositData(tx, idx int, wallet [20]byte) *Deposit {
+	d := &Deposit{
+		Depositor:           chain.Address(fmt.Sprintf("0x%x", c26Hash20(fmt.Sprintf("depositor-%d-%d", tx, idx)))),
+		WalletPublicKeyHash: wallet,
+		RefundPublicKeyHash: c26Hash20(fmt.Sprintf("refund-%d-%d", tx, idx)),
+		RefundLocktime:      [4]byte{0x60, 0xbc, 0xea, 0x61},
+	}
+	binary.BigEndian.PutUint64(d.BlindingFactor[:], uint64(0xf9f0c90d00039500)+uint64(16*tx+idx))
+	return d
+}
+
 var c26ErrText = map[string]string{
 	"noDeposits":    "at least one deposit is required",
 	"mainInput":     "cannot add input pointing to wallet main UTXO",
@@ -204,6 +280,12 @@ var c26ErrText = map[string]string{
 	"noMoved":       "moved funds UTXO is required",
 	"movedLookup":   "could not get moving funds transaction",
 	"movedInput":    "cannot add input pointing to moved funds UTXO",
+	// proposal resolution (ValidateDepositSweepProposal / ValidateRedemptionProposal), "[i/n]" display index
+	"fundingConfirmations": "cannot get funding tx confirmations count for deposit [%d/%d]",
+	"fundingUnconfirmed":   "funding tx of deposit [%d/%d] has only",
+	"noEvent":              "no matching DepositRevealed event for deposit [%d/%d]",
+	"noRequest":            "request data not found for deposit [%d/%d]",
+	"notPending":           "request [%d/%d] is not a pending redemption request",
 }
 
 type c26Observed struct {
@@ -223,6 +305,9 @@ func TestVerif_C26_Assemble(t *testing.T) {
 	cases := kit.LoadCases(t, "cases.ndjson")
 	signEvery := kit.IntEnv("VERIF_SIGN_EVERY", 10)
 	signed := 0
+	var weak []func()
+	lc := Connect()
+	otherPKH := c26Hash20("another-wallet")
 	for ci, cs := range cases {
 		in, exp := cs.Get("in"), cs.Get("expected")
 		kind := in.Get("kind").Str()
@@ -237,6 +322,9 @@ func TestVerif_C26_Assemble(t *testing.T) {
 		var builder *bitcoin.TransactionBuilder
 		var err error
 		var shares []int64
+		var redeemable int64 // sum of (amount - treasury fee) of the redemption requests
+		var entries int      // number of proposal entries (display index of errors)
+		var extraProblem string
 		func() {
 			defer func() {
 				if r := recover(); r != nil {
@@ -268,6 +356,7 @@ func TestVerif_C26_Assemble(t *testing.T) {
 						TreasuryFee:          uint64(it.Get("aux").Int()),
 						TxMaxFee:             1 << 40,
 					}
+					redeemable += int64(it.Get("value").Int() - it.Get("aux").Int())
 				}
 				if len(requests) > 0 {
 					shares = withRedemptionTotalFee(fee)(requests)
@@ -315,13 +404,189 @@ func TestVerif_C26_Assemble(t *testing.T) {
 						panic("harness: unknown moved funds kind")
 					}
 					refs[1] = u
-					// the value is looked up on the Bitcoin chain by the real code
-					moved, err = assembleMovedFundsSweepUtxo(c.chain, u.Outpoint.TransactionHash, u.Outpoint.OutputIndex)
+					// as movedFundsSweepAction.execute: validate the proposal, then look the moved funds
+					// UTXO (value) up on the Bitcoin chain from the proposal's transaction hash and index
+					proposal := &MovedFundsSweepProposal{MovingFundsTxHash: u.Outpoint.TransactionHash,
+						MovingFundsTxOutputIndex: u.Outpoint.OutputIndex, SweepTxFee: big.NewInt(fee)}
+					if verr := ValidateMovedFundsSweepProposal(logger, env.walletPKH, proposal, &c26Bridge{localChain: lc}); verr != nil {
+						panic("harness: moved funds sweep proposal validation: " + verr.Error())
+					}
+					moved, err = assembleMovedFundsSweepUtxo(c.chain, proposal.MovingFundsTxHash, proposal.MovingFundsTxOutputIndex)
 					if err != nil {
 						return
 					}
 				}
 				builder, err = assembleMovedFundsSweepTransaction(c.chain, env.pub, moved, main, fee)
+			case "sweepProposal":
+				// depositSweepAction.execute: ValidateDepositSweepProposal -> DetermineWalletMainUtxo ->
+				// EnsureWalletSyncedBetweenChains -> assembleDepositSweepTransaction
+				lc.wallets = map[[20]byte]*WalletChainData{}
+				lc.depositRequests = map[[32]byte]*DepositChainRequest{}
+				bridge := &c26Bridge{localChain: lc}
+				btc := &c26Btc{localBitcoinChain: c.chain, conf: map[bitcoin.Hash]uint{}}
+				wd := &WalletChainData{State: StateLive}
+				if main != nil {
+					wd.MainUtxoHash = lc.ComputeMainUtxoHash(main)
+					btc.conf[main.Outpoint.TransactionHash] = 10
+				}
+				lc.setWallet(env.walletPKH, wd)
+				// funding transactions: one output per potential deposit, in index order
+				deps := in.Get("deposits").List()
+				byTx := map[int][]kit.V{}
+				var txIDs []int
+				for _, d := range deps {
+					tx := d.Get("tx").Int()
+					if byTx[tx] == nil {
+						txIDs = append(txIDs, tx)
+					}
+					byTx[tx] = append(byTx[tx], d)
+				}
+				sort.Ints(txIDs)
+				txHash := map[int]bitcoin.Hash{}
+				for _, tx := range txIDs {
+					outs := byTx[tx]
+					sort.Slice(outs, func(a, b int) bool { return outs[a].Get("idx").Int() < outs[b].Get("idx").Int() })
+					ftx := &bitcoin.Transaction{Version: 1, Inputs: []*bitcoin.TransactionInput{{
+						Outpoint: &bitcoin.TransactionOutpoint{TransactionHash: bitcoin.Hash(c26Hash32(fmt.Sprintf("ext-%s-%d", h, tx)))},
+						Sequence: 0xffffffff}}}
+					for n, d := range outs {
+						if d.Get("idx").Int() != n {
+							panic("harness: deposit outputs of a funding transaction must be contiguous from 0")
+						}
+						wallet := env.walletPKH
+						if d.Get("state").Str() == "other" {
+							wallet = otherPKH
+						}
+						script, serr := c.c26DepositData(tx, n, wallet).Script()
+						if serr != nil {
+							panic("harness: deposit script: " + serr.Error())
+						}
+						var pk bitcoin.Script
+						if (tx+n)%2 == 0 {
+							pk, _ = bitcoin.PayToWitnessScriptHash(bitcoin.WitnessScriptHash(script))
+						} else {
+							pk, _ = bitcoin.PayToScriptHash(bitcoin.ScriptHash(script))
+						}
+						ftx.Outputs = append(ftx.Outputs, &bitcoin.TransactionOutput{Value: int64(d.Get("value").Int()), PublicKeyScript: pk})
+					}
+					txHash[tx] = ftx.Hash()
+					switch in.Get("txs").Idx(tx - 1).Str() {
+					case "ok":
+						btc.conf[ftx.Hash()] = DepositSweepRequiredFundingTxConfirmations
+					case "unconfirmed":
+						btc.conf[ftx.Hash()] = DepositSweepRequiredFundingTxConfirmations - 1
+					}
+					if in.Get("txs").Idx(tx-1).Str() != "unknown" {
+						if berr := c.chain.BroadcastTransaction(ftx); berr != nil {
+							panic("harness: broadcast: " + berr.Error())
+						}
+					}
+					for n, d := range outs {
+						op := &bitcoin.TransactionOutpoint{TransactionHash: ftx.Hash(), OutputIndex: uint32(n)}
+						c.prevOut[c26OutpointKey(op)] = ftx.Outputs[n]
+						st := d.Get("state").Str()
+						if st == "absent" {
+							continue
+						}
+						wallet := env.walletPKH
+						if st == "other" {
+							wallet = otherPKH
+						}
+						dd := c.c26DepositData(tx, n, wallet)
+						bridge.events = append(bridge.events, &DepositRevealedEvent{
+							FundingTxHash: ftx.Hash(), FundingOutputIndex: uint32(n), Depositor: dd.Depositor,
+							Amount: uint64(d.Get("value").Int()), BlindingFactor: dd.BlindingFactor, WalletPublicKeyHash: wallet,
+							RefundPublicKeyHash: dd.RefundPublicKeyHash, RefundLocktime: dd.RefundLocktime,
+							BlockNumber: uint64(1000 + d.Get("block").Int()),
+						})
+						if st != "noreq" {
+							lc.setDepositRequest(ftx.Hash(), uint32(n), &DepositChainRequest{Depositor: dd.Depositor, Amount: uint64(d.Get("value").Int())})
+						}
+					}
+				}
+				proposal := &DepositSweepProposal{SweepTxFee: big.NewInt(fee)}
+				keys := in.Get("keys").List()
+				entries = len(keys)
+				for n, k := range keys {
+					proposal.DepositsKeys = append(proposal.DepositsKeys, struct {
+						FundingTxHash      bitcoin.Hash
+						FundingOutputIndex uint32
+					}{txHash[k.Get("tx").Int()], uint32(k.Get("idx").Int())})
+					proposal.DepositsRevealBlocks = append(proposal.DepositsRevealBlocks, big.NewInt(int64(1000+k.Get("block").Int())))
+					// the UTXO the proposal NAMES with key n
+					refs[n+1] = &bitcoin.UnspentTransactionOutput{
+						Outpoint: &bitcoin.TransactionOutpoint{TransactionHash: txHash[k.Get("tx").Int()], OutputIndex: uint32(k.Get("idx").Int())},
+						Value:    int64(k.Get("value").Int())}
+				}
+				var deposits []*Deposit
+				deposits, err = ValidateDepositSweepProposal(logger, env.walletPKH, proposal, DepositSweepRequiredFundingTxConfirmations, bridge, btc)
+				if err != nil {
+					return
+				}
+				for n, x := range bridge.extra {
+					if x.Deposit == nil || x.Utxo.Outpoint.TransactionHash != proposal.DepositsKeys[n].FundingTxHash ||
+						x.Utxo.Outpoint.OutputIndex != proposal.DepositsKeys[n].FundingOutputIndex {
+						extraProblem = fmt.Sprintf("deposit data handed to the Bridge for key %d (%s) is the data of another deposit (%s)",
+							n+1, c26OutpointKey(refs[n+1].Outpoint), c26OutpointKey(x.Utxo.Outpoint))
+						break
+					}
+				}
+				determined, derr := DetermineWalletMainUtxo(env.walletPKH, bridge, btc)
+				if derr != nil || (determined == nil) != (main == nil) {
+					panic(fmt.Sprintf("harness: main UTXO lookup: %v %v", determined, derr))
+				}
+				if serr := EnsureWalletSyncedBetweenChains(env.walletPKH, determined, bridge, btc); serr != nil {
+					panic("harness: sync check: " + serr.Error())
+				}
+				builder, err = assembleDepositSweepTransaction(btc, env.pub, determined, deposits, proposal.SweepTxFee.Int64())
+			case "redemptionProposal":
+				// redemptionAction.execute: ValidateRedemptionProposal -> DetermineWalletMainUtxo ->
+				// EnsureWalletSyncedBetweenChains -> assembleRedemptionTransaction
+				lc.wallets = map[[20]byte]*WalletChainData{}
+				lc.pendingRedemptionRequests = map[[32]byte]*RedemptionRequest{}
+				bridge := &c26Bridge{localChain: lc}
+				lc.setWallet(env.walletPKH, &WalletChainData{State: StateLive, MainUtxoHash: lc.ComputeMainUtxoHash(main)})
+				for _, l := range in.Get("pend").Keys() {
+					st := in.Get("pend").Get(l)
+					byScript[hex.EncodeToString(env.labels[l])] = l
+					if st.Get("p").Bool() {
+						lc.setPendingRedemptionRequest(env.walletPKH, &RedemptionRequest{
+							Redeemer: chain.Address(fmt.Sprintf("0x%x", c26Hash20("redeemer-"+l))), RedeemerOutputScript: env.labels[l],
+							RequestedAmount: uint64(st.Get("amount").Int()), TreasuryFee: uint64(st.Get("treasury").Int()), TxMaxFee: 1 << 40})
+					}
+					if in.Get("foreign").Bool() {
+						lc.setPendingRedemptionRequest(otherPKH, &RedemptionRequest{
+							Redeemer: chain.Address(fmt.Sprintf("0x%x", c26Hash20("foreign-"+l))), RedeemerOutputScript: env.labels[l],
+							RequestedAmount: 500002, TreasuryFee: 2, TxMaxFee: 1 << 40})
+					}
+				}
+				proposal := &RedemptionProposal{RedemptionTxFee: big.NewInt(fee)}
+				scripts := in.Get("scripts").Strs()
+				entries = len(scripts)
+				for _, l := range scripts {
+					proposal.RedeemersOutputScripts = append(proposal.RedeemersOutputScripts, env.labels[l])
+					st := in.Get("pend").Get(l)
+					redeemable += int64(st.Get("amount").Int() - st.Get("treasury").Int())
+				}
+				var requests []*RedemptionRequest
+				requests, err = ValidateRedemptionProposal(logger, env.walletPKH, proposal, bridge)
+				if err != nil {
+					return
+				}
+				determined, derr := DetermineWalletMainUtxo(env.walletPKH, bridge, c.chain)
+				if derr != nil || determined == nil {
+					panic(fmt.Sprintf("harness: main UTXO lookup: %v %v", determined, derr))
+				}
+				if serr := EnsureWalletSyncedBetweenChains(env.walletPKH, determined, bridge, c.chain); serr != nil {
+					panic("harness: sync check: " + serr.Error())
+				}
+				ra := newRedemptionAction(nil, bridge, c.chain, wallet{publicKey: env.pub}, nil, proposal, 0, 0, nil)
+				shares = ra.feeDistribution(requests)
+				shape := ra.transactionShape
+				if in.Get("shape").Str() == "last" {
+					shape = RedemptionChangeLast
+				}
+				builder, err = assembleRedemptionTransaction(ra.btcChain, ra.wallet().publicKey, determined, requests, ra.feeDistribution, shape)
 			default:
 				panic("harness: unknown kind " + kind)
 			}
@@ -362,7 +627,9 @@ func TestVerif_C26_Assemble(t *testing.T) {
 			problems = append(problems, "assembler panicked: "+obs.Err)
 		} else if expErr != "" {
 			want := c26ErrText[expErr]
-			if strings.Contains(want, "%d") {
+			if strings.Contains(want, "%d/%d") {
+				want = fmt.Sprintf(want, exp.Get("errIdx").Int()+1, entries)
+			} else if strings.Contains(want, "%d") {
 				want = fmt.Sprintf(want, exp.Get("errIdx").Int())
 			}
 			if err == nil {
@@ -406,7 +673,7 @@ func TestVerif_C26_Assemble(t *testing.T) {
 				problems = append(problems, fmt.Sprintf("outputs %v, expected %v", obs.Outputs, wantOut))
 			}
 			// fee shares
-			if kind == "redemption" {
+			if kind == "redemption" || kind == "redemptionProposal" {
 				var wantShares []int64
 				var sumShares int64
 				for _, s := range exp.Get("shares").Ints() {
@@ -424,18 +691,25 @@ func TestVerif_C26_Assemble(t *testing.T) {
 			}
 			// value conservation, stated directly (not via the expected outputs)
 			funded := true
-			if kind == "redemption" {
-				var redeemable int64
-				for _, it := range items {
-					redeemable += int64(it.Get("value").Int() - it.Get("aux").Int())
-				}
+			if kind == "redemption" || kind == "redemptionProposal" {
 				funded = int64(in.Get("main").Get("value").Int()) >= redeemable
+			}
+			if extraProblem != "" {
+				problems = append(problems, extraProblem)
 			}
 			if funded && wantTotal-sumOut != fee {
 				problems = append(problems, fmt.Sprintf("inputs %d - outputs %d = %d, proposed fee %d", wantTotal, sumOut, wantTotal-sumOut, fee))
 			}
 		}
 		if len(problems) > 0 {
+			if expErr != "" && err != nil && !strings.HasPrefix(obs.Err, "PANIC") {
+				// rejected, but for another reason than specified: reported after the divergences
+				// in which a transaction was (or should have been) built
+				weak = append(weak, func() {
+					rep.Diverge(key, "assemble "+kind+": "+strings.Join(problems, "; "), cs.X, exp.X, obs)
+				})
+				continue
+			}
 			rep.Diverge(key, "assemble "+kind+": "+strings.Join(problems, "; "), cs.X, exp.X, obs)
 			continue
 		}
@@ -447,6 +721,9 @@ func TestVerif_C26_Assemble(t *testing.T) {
 			}
 			signed++
 		}
+	}
+	for _, f := range weak {
+		f()
 	}
 	rep.Count("signed_and_script_verified", signed)
 	if signed == 0 {
